@@ -4,7 +4,7 @@
 (*                     hist (history machines)                                                                     *)
 (*   IOEnv.NORM_TIER   quick | thorough                                                                            *)
 (*   IOEnv.NORM_FIXED  letters of the repair switches already applied in the tree under test                       *)
-(*                     i index-neg-oob  n nob-badlen  s spl-str-split  o aob-axis-order  z aob-size1  (- = none)   *)
+(*                     i index-neg-oob  n nob-badlen  s spl-str-split  z aob-size1  (- = none)                       *)
 (*   IOEnv.OUT_FILE    export: one JSON line per case  [fn, a, allow, c]  (allow = outcomes the documentation      *)
 (*                     accepts, c = what the CURRENT code's decision tree does and which leaf it takes) or per     *)
 (*                     history state [m, hist, st, alt]                                                            *)
@@ -17,7 +17,7 @@ Group == IOEnv.NORM_GROUP
 Thorough == IOEnv.NORM_TIER = "thorough"
 Has(ch) == \E i \in 1..Len(IOEnv.NORM_FIXED) : SubSeq(IOEnv.NORM_FIXED, i, i) = ch
 TreeFixed == (IF Has("i") THEN {"index-neg-oob"} ELSE {}) \cup (IF Has("n") THEN {"nob-badlen"} ELSE {})
-             \cup (IF Has("s") THEN {"spl-str-split"} ELSE {}) \cup (IF Has("o") THEN {"aob-axis-order"} ELSE {})
+             \cup (IF Has("s") THEN {"spl-str-split"} ELSE {})
              \cup (IF Has("z") THEN {"aob-size1"} ELSE {})
 
 C(fn, a) == [fn |-> fn, a |-> a]
@@ -94,7 +94,7 @@ UniqueCases == {C("unique", [seq |-> VL(s)]) : s \in SeqsUpTo(UqItems, IF Thorou
                \cup {C("unique", [seq |-> x]) : x \in {VS(<<"a", "b", "c", "a">>), VS(<<>>), VS(<<"a", "a">>), VG(<<VI(1), VI(1)>>)}}
 Chars == {"-", "a"}
 Lines == SeqsUpTo(Chars, 3)
-Texts == [1..1 -> Lines] \cup [1..2 -> Lines] \cup {<<<<"-", "a">>, <<>>, <<"-", "-", "a">>>>, <<>>}
+Texts == [1..1 -> Lines] \cup [1..2 -> Lines] \cup {<<<<"-", "a">>, <<>>, <<"-", "-", "a">>>>}
 Inds == {<<"-">>, <<"-", "-">>}
 TextCases == {C("indent", [lines |-> t, ind |-> i]) : t \in Texts, i \in Inds \cup {<<>>}}
              \cup {C("dedent", [lines |-> t, ind |-> i, maxlv |-> mx]) : t \in Texts, i \in Inds \cup {<<>>}, mx \in {NONE, 0, 1, 2}}
@@ -146,11 +146,14 @@ MC_Cases == CASE Group = "axes" -> AxesCases [] Group = "index" -> IndexCases []
               [] Group = "all" -> AxesCases \cup IndexCases \cup NobCases \cup SplCases \cup MiscCases \cup NumCases
               [] OTHER -> {}
 MC_Machines == IF Group = "hist" THEN {"wa-alias", "wa-snap", "rng", "po", "cache"} ELSE {}
-MC_MaxLen == IF Thorough THEN 6 ELSE 5
+MC_MaxLenOf(mm) == CASE mm \in {"wa-alias", "wa-snap"} -> (IF Thorough THEN 7 ELSE 6)
+                     [] mm = "cache" -> (IF Thorough THEN 6 ELSE 5)
+                     [] OTHER -> (IF Thorough THEN 6 ELSE 5)
 
 Write(rec) == Serialize(ToJson(rec) \o "\n", IOEnv.OUT_FILE,
                         [format |-> "TXT", charset |-> "UTF-8", openOptions |-> <<"WRITE", "CREATE", "APPEND">>]).exitValue = 0
-ExportCase == Write([fn |-> case.fn, a |-> case.a, allow |-> Allowed(case.fn, case.a), c |-> Impl(case.fn, case.a, TreeFixed)])
+ExportCase == Write([fn |-> case.fn, a |-> case.a, cell |-> Cell(case.fn, case.a), allow |-> Allowed(case.fn, case.a), c |-> Impl(case.fn, case.a, TreeFixed),
+                     cur |-> Refines(case.fn, case.a, TreeFixed)])
 OtherMode == IF m = "wa-alias" THEN "wa-snap" ELSE IF m = "wa-snap" THEN "wa-alias" ELSE m
 ExportHist == Write([m |-> m, hist |-> hist, st |-> st, arrs |-> IF m \in {"wa-alias", "wa-snap"} THEN WaArrs(m, st) ELSE <<>>,
                      alt |-> IF m \in {"wa-alias", "wa-snap"} THEN Run(OtherMode, hist).obj ELSE <<>>])
